@@ -172,7 +172,8 @@ def relation(env, a, b):
 
 POINT_OPS = ["new", "x", "y", "xy", "scale", "to_affine", "from_affine",
              "double", "add", "radd", "neg", "mul", "rmul", "mul_add", "eq",
-             "ne", "order", "pickle", "eq3"]
+             "ne", "order", "pickle", "eq3", "iadd", "imul", "hash",
+             "mul_burst"]
 KEY_OPS = ["sk_new", "sign_det", "sign_k", "verify", "precompute",
            "vk_to_string", "sk_to_string", "sk_to_der", "vk_to_der",
            "pickle_key", "reload_key", "key_eq", "key_point", "verify_bad"]
@@ -180,13 +181,14 @@ KEY_OPS = ["sk_new", "sign_det", "sign_k", "verify", "precompute",
 MIXES = {
     "C06": dict(new=8, x=3, y=3, xy=3, scale=4, to_affine=4, from_affine=3,
                 double=10, add=22, radd=4, neg=10, mul=4, rmul=1, mul_add=2,
-                eq=8, ne=3, order=1, pickle=2, eq3=3),
+                eq=8, ne=3, order=1, pickle=2, eq3=3, iadd=3, hash=1),
     "C07": dict(new=8, x=1, y=1, xy=2, scale=3, to_affine=2, from_affine=4,
                 double=2, add=4, radd=1, neg=4, mul=26, rmul=8, mul_add=22,
-                eq=2, ne=1, order=1, pickle=2, eq3=0),
+                eq=2, ne=1, order=1, pickle=2, eq3=0, imul=3, mul_burst=2),
     "C19": dict(new=6, x=3, y=3, xy=3, scale=6, to_affine=5, from_affine=4,
                 double=4, add=8, radd=2, neg=4, mul=8, rmul=2, mul_add=6,
-                eq=5, ne=2, order=1, pickle=7, eq3=4,
+                eq=5, ne=2, order=1, pickle=7, eq3=4, iadd=3, imul=2, hash=2,
+                mul_burst=1,
                 sk_new=4, sign_det=7, sign_k=4, verify=8, precompute=5,
                 vk_to_string=3, sk_to_string=2, sk_to_der=2, vk_to_der=2,
                 pickle_key=4, reload_key=3, key_eq=3, key_point=5,
@@ -277,13 +279,28 @@ def _gen_op(r, name, mc, toy):
     elif name == "from_affine":
         op["i"] = idx()
         op["gen"] = r.random() < 0.5
-    elif name in ("add", "radd", "eq", "ne"):
+    elif name == "hash":
+        op["i"] = idx()
+        op["key"] = r.random() < 0.3
+    elif name == "mul_burst":
+        # the same object multiplied many times over (a threshold on a use
+        # counter is a history too), then by a long multiplier
+        op["i"] = idx()
+        op["n"] = r.choice([17, 33, 34, 40, 65, 70, 130]) if toy \
+            else r.choice([17, 33, 34])
+        op["ks"] = [r.randrange(1, 2 * N) for _ in range(5)]
+        op["k"] = libx.structured_scalar(r, N)
+        if r.random() < 0.6:
+            op["k"] = ((1 << (r.randrange(2, 7) * N.bit_length()))
+                       + r.getrandbits(N.bit_length())) * r.choice([1, 1, -1])
+        op["how"] = r.choice(["mul", "mul", "mul_add", "rmul"])
+    elif name in ("add", "radd", "eq", "ne", "iadd"):
         op["i"] = idx()
         op["j"] = idx()
         op["pair"] = r.choice(["any", "any", "same", "eqv", "opp"])
     elif name == "eq3":
         op["i"], op["j"], op["l"] = idx(), idx(), idx()
-    elif name in ("mul", "rmul"):
+    elif name in ("mul", "rmul", "imul"):
         op["i"] = idx()
         op["k"] = libx.structured_scalar(r, N)
     elif name == "mul_add":
@@ -826,6 +843,141 @@ class _State(object):
 
     def op_radd(self, op):
         self.op_add(op, swap=True)
+
+    def _still(self, name, e, y0):
+        """The operand of an augmented assignment is a value: the name that
+        still refers to it must denote what it denoted."""
+        if y0:
+            return
+        try:
+            now = norm_point(self.env, e.obj)
+        except Exception as ex:
+            now = ["exc", type(ex).__name__]
+        if now != mval(e.val):
+            self.fail("fresh", name + "-operand-changed",
+                      "after `q = P; q %s ...` the object P denotes %r, it "
+                      "denoted %r: an augmented assignment changed a point "
+                      "other names refer to" % (
+                          "+=" if name == "iadd" else "*=", now, mval(e.val)),
+                      dict(now=now, before=mval(e.val)))
+
+    def op_iadd(self, op):
+        env = self.env
+        a, b = self.pair(op)
+        self.record_state("iadd", a, b)
+        want = ec.add(env.mc, a.val, b.val)
+        y0 = self.y0_scope("add", a, b, want)
+
+        def fn():
+            q = a.obj
+            q += b.obj
+            return q
+
+        def ff():
+            q = a.fresh(env)
+            q += b.fresh(env)
+            return q
+        ok, res = self.lib_op("iadd", fn, op, y0=y0)
+        if not ok:
+            return
+        self.check_point_result("iadd", res, want, ff, y0)
+        self._still("iadd", a, y0)
+        if b is not a:
+            self._still("iadd", b, y0)
+        if res is not a.obj and res is not b.obj:
+            self.put_result(res, want, y0)
+
+    def op_imul(self, op):
+        env = self.env
+        e = self.pick(op["i"])
+        k = op["k"]
+        self.record_state("imul", e)
+        want = ec.mul(env.mc, k, e.val)
+        y0 = self.y0_scope("mul", e, want)
+
+        def fn():
+            q = e.obj
+            q *= k
+            return q
+
+        def ff():
+            q = e.fresh(env)
+            q *= k
+            return q
+        ok, res = self.lib_op("imul", fn, op, y0=y0)
+        if not ok:
+            return
+        self.state_changing += 1
+        self.check_point_result("imul", res, want, ff, y0)
+        self._still("imul", e, y0)
+        if res is not e.obj:
+            self.put_result(res, want, y0)
+
+    def op_hash(self, op):
+        """hash() is a public operation like any other: whatever it answers
+        for a live object (an integer, or TypeError for an unhashable class)
+        it answers for a fresh object denoting the same value - equal objects
+        hash equal, before and after rescaling."""
+        env = self.env
+        if op.get("key") and self.keys:
+            k = self.kpick(op["i"])
+            live = [k.sk.verifying_key]
+            fresh = [self.fresh_key(k).verifying_key]
+            name = "hash-key"
+        else:
+            e = self.pick(op["i"])
+            if self.y0_scope("add", e):
+                return
+            live, fresh, name = [e.obj], [e.fresh(env)], "hash-point"
+
+        def h(o):
+            try:
+                return hash(o)
+            except TypeError:
+                return "unhashable"
+        ok, got = self.lib_op(name, lambda: h(live[0]), op)
+        if not ok:
+            return
+        fr = h(fresh[0])
+        self.results.append((name, got == "unhashable"))
+        if got != fr:
+            self.fail("fresh", name, "hash() of a live object is %r, of a "
+                      "freshly built object denoting the same value %r "
+                      "(equal objects must hash equal)" % (got, fr))
+
+    def op_mul_burst(self, op):
+        env = self.env
+        e = self.pick(op["i"])
+        if self.y0_scope("mul", e, e.val):
+            return
+        self.record_state("mul_burst", e)
+        g = self.pool[0]
+        how = op["how"]
+        if how == "mul_add" and (
+                g.val is O or g.legacy or not hasattr(g.obj, "mul_add")
+                or self.y0_scope("mul", g, e)
+                or (g.order and e.val is not O
+                    and ec.mul(env.mc, g.order, e.val) is not O)):
+            how = "mul"     # outside mul_add's precondition
+        for t in range(op["n"]):
+            kk = op["ks"][t % len(op["ks"])] + t
+            try:
+                if how == "mul_add":
+                    r_ = g.obj.mul_add(1, e.obj, kk)
+                    w_ = ec.add(env.mc, g.val, ec.mul(env.mc, kk, e.val))
+                else:
+                    r_ = e.obj * kk
+                    w_ = ec.mul(env.mc, kk, e.val)
+                bad = norm_point(env, r_) != mval(w_)
+            except Exception as ex:
+                self.fail("exception", "mul_burst-" + type(ex).__name__,
+                          "multiplication %d of a burst raised %r" % (t, ex))
+            if bad and not self.y0_scope("mul", e, w_):
+                self.fail("refine", "mul_burst", "multiplication %d of a "
+                          "burst on one object: library %r, model %r" % (
+                              t, norm_point(env, r_), mval(w_)))
+        self.state_changing += 1
+        self.op_mul(dict(op, op="mul"), right=(op["how"] == "rmul"))
 
     def op_neg(self, op):
         env = self.env
